@@ -114,7 +114,8 @@ struct MemoryStream final : public AnyStream {
   bool read(void* buf, size_t len) override {
     if (len > size_t(end - cur))
       return false;
-    std::memcpy(buf, cur, len);
+    if (len != 0)  // buf may be null for an empty read (e.g. data() of an empty vector)
+      std::memcpy(buf, cur, len);
     cur += len;
     return true;
   }
